@@ -327,6 +327,32 @@ def run(ctx: Ctx) -> Result:
                                            'expected': 'the plugin runs once, finds the contract, CHECK_TEMPLATE yields ff', 'observed': f'Z = {got}, plugin saw contract: {seen}',
                                            'how_to_run': './check C09 --tier quick'})
     vmrun.in_big_thread(plugin_contract)
+    # every installed signature extension runs exactly once before every signature instruction - whatever the others return
+    def truthy_sigexts():
+        F = vmrun.impl.functions()
+        log_ = []
+        def tagger(tape, stack, cache): log_.append('tagger'); return True
+        def auditor(tape, stack, cache): log_.append('auditor'); return None
+        def zero(tape, stack, cache): log_.append('zero'); return 0
+        sigprobes = {'GET_MESSAGE': op('GET_MESSAGE') + b'\x00' + op('POP0'), 'SIGN': push(SEED) + op('SIGN') + b'\x00' + op('POP0'),
+                     'CHECK_SIG': push(bytes(64)) + push(PK) + op('CHECK_SIG') + b'\x00' + op('POP0')}
+        with vmrun.Env(vmrun.Cfg()) as env:
+            for order in ([tagger, auditor], [auditor, tagger], [zero, tagger, auditor]):
+                for pname, pb in sigprobes.items():
+                    for nest in nestings:
+                        if len(nest) > 2 or any(c in ('MERKLEVAL', 'TAPROOT') for c in nest): continue
+                        b = pb
+                        for cname in reversed(nest):
+                            b = CONTEXTS[cname](b)
+                        res.note_case(('truthy-sigext', tuple(f.__name__ for f in order), pname, nest))
+                        del log_[:]
+                        try: F.run_script(b, {'sigfield1': b'f1'}, {}, {}, {'signature_extensions': list(order)})
+                        except BaseException as e: log_.append('RAISED:' + type(e).__name__)
+                        want = [f.__name__ for f in order]
+                        if log_ != want and len(res.violations) < 10:
+                            res.violations.append({'input': {'probe': f'{pname} with signature extensions {want} (tagger returns True)', 'nesting': list(nest), 'script': b.hex()},
+                                                   'expected': f'each extension exactly once, in order: {want}', 'observed': str(log_), 'how_to_run': './check C09 --tier quick'})
+    vmrun.in_big_thread(truthy_sigexts)
     return res
 
 
